@@ -435,6 +435,9 @@ func (r *Report) writeEvidence(oblist []*Oblig, nObl, nDis int, knownHit []strin
 		if c.Trusted {
 			continue
 		}
+		if c.HasMod && !c.Props["C20"] {
+			assumptions = append(assumptions, "modifies clause of "+k+" is declared but not checked against the body")
+		}
 		for _, e := range c.Ensures {
 			if e.Kind == "assumes" {
 				assumptions = append(assumptions, "ASSUMED (not checked against the body) postcondition of "+k+": "+e.Text)
